@@ -57,7 +57,13 @@ ASSUMPTIONS = [
     "does not apply): V 1 absent or 40; V 2 the key length, or absent for 40 bits; V 4 absent or 128; V 5 absent or 256. The reference writes "
     "each form in turn; a failure is attributed to the form only if the same attempt succeeds with the canonical form (V 1 absent, V 4 128, "
     "V 5 absent). /Length 40 or 128 with V 5 (not legal, accepted by lopdf) is not generated.",
-    "Crypt filter method Identity, per-stream Crypt filters, public-key handlers and object streams are outside this check (C05 / not produced).",
+    "Application of the handler to a document (reference direction, one deviation from the canonical document at a time, every second document "
+    "canonical): the standard crypt filter Identity as StmF / StrF, named or by default (absent entry); /EncryptMetadata false below V 4 (no "
+    "meaning there); the Encrypt dictionary written directly in the trailer; a signature dictionary whose hexadecimal Contents is not encrypted; "
+    "streams with a Crypt filter without decode parameters / with a null entry / without Name (Identity from V 4 on, ordinary streams below). "
+    "A failure is attributed to the variant only if the same attempt succeeds on the canonical document (same keys and passwords).",
+    "Not generated: Crypt filters naming a filter of CF (C05), public-key handlers, object streams, page-level Metadata streams with EncryptMetadata "
+    "false (implementations differ), P words with reserved bits set, passwords SASLprep prohibits.",
 ]
 
 # deviations still switched on in spec/MC_SecurityAlgorithms_{quick,thorough,mut_*}.cfg (= confirmed and not yet repaired);
@@ -66,7 +72,12 @@ ASSUMPTIONS = [
 MODEL_DEV = {"h12": False, "ownerAbsent": False}
 # legal forms of the Length entry on which the model of lopdf (Dev_length, still TRUE in the cfgs) derives another key
 # length than the reader of the standard or rejects the dictionary; set() once the repairs are applied and Dev_length = FALSE
-MODEL_DEV_LENGTH = set()          # repaired by 1a492b6 (V5.256) and ce1e5ee (V1.40, V4.absent)
+MODEL_DEV_LENGTH = set()
+# how the handler is APPLIED to a document - deviations still switched on in the cfgs (Dev_identity, Dev_emBelowV4, Dev_encDirect,
+# Dev_sig, Dev_cryptNoParams): kinds of items lopdf transforms differently, forms of the dictionary it reads differently;
+# set() / set() once the repairs are applied and the switches are FALSE
+MODEL_DEV_KINDS = {"str.sigcontents", "stream.cryptid", "identity"}
+MODEL_DEV_FORMS = {"enc.direct", "em.false", "identity"}          # repaired by 1a492b6 (V5.256) and ce1e5ee (V1.40, V4.absent)
 
 MUTANTS = [("MC_SecurityAlgorithms_mut_alg7.cfg", "AuthOwnerComplete"), ("MC_SecurityAlgorithms_mut_alg12.cfg", "AuthOwnerComplete"),
            # "the conversion table is built on the first call and kept": refuted by a history WinAnsi/MacRoman/Standard-first
@@ -143,7 +154,7 @@ def check_generated(lines):
     need = [("R", r) for r in (2, 3, 4, 5, 6)]
     if {c[0] for c in cfgs} != {2, 3, 4, 5, 6} or len(cfgs) < 28:
         raise vlib.ToolError("vacuous: TLC emitted terms for %d configurations only" % len(cfgs))
-    if not any(c[5] for c in cfgs) or not any(not c[2] for c in cfgs) or {c[3] for c in cfgs} != {"V2", "AESV2", "AESV3"}:
+    if not any(c[5] for c in cfgs) or not any(not c[2] for c in cfgs) or {c[3] for c in cfgs} != {"V2", "AESV2", "AESV3", "Identity"}:
         raise vlib.ToolError("vacuous: absent owner / EncryptMetadata false / a method missing from the configurations")
     for t in terms:
         names = {d["n"] for d in t["defs"]}
@@ -151,8 +162,8 @@ def check_generated(lines):
                 "r.fk.user", "r.fk.owner"} | ({"OE", "UE", "Perms", "r.perms.ok"} if t["cfg"]["R"] >= 5 else {"okey", "r.upw"})
         if not want <= names:
             raise vlib.ToolError("TERMS line lacks %s" % sorted(want - names))
-    # Configure: a TERMS line; WriteDict + Attempt: a CASE line; DecryptItem + Finish: items = 9; Reject: not expected to open
-    if not any(c["items"] == 9 for c in cases) or not any(not (c["expUser"] or c["expOwner"]) and c["items"] == 0 for c in cases):
+    # Configure: a TERMS line; WriteDict + Attempt: a CASE line; DecryptItem + Finish: items = 11; Reject: not expected to open
+    if not any(c["items"] == 11 for c in cases) or not any(not (c["expUser"] or c["expOwner"]) and c["items"] == 0 for c in cases):
         raise vlib.ToolError("vacuous: DecryptItem/Finish or Reject never taken")
     for r in (2, 3, 4, 5, 6):
         cs = [c for c in cases if c["cfg"]["R"] == r]
@@ -207,6 +218,25 @@ def check_generated(lines):
         raise vlib.ToolError("TERMS line: inconsistent Length forms")
     if {m["cls"] for t in terms for m in t["lengthModel"] if m["dev"]} != MODEL_DEV_LENGTH:
         raise vlib.ToolError("modelled Length deviation differs from MODEL_DEV_LENGTH")
+    # application of the handler: Identity filters (named and by default), forms of the dictionary, signature Contents, Crypt
+    # filters without parameters are all emitted; the model of lopdf deviates exactly in the listed classes
+    idc = [t for t in terms if "Identity" in (t["cfg"]["stmf"], t["cfg"]["strf"])]
+    if {t["cfg"]["V"] for t in idc} != {4, 5} or not any(t["cfg"]["stmf"] == "Identity" for t in idc) or not any(t["cfg"]["strf"] == "Identity" for t in idc):
+        raise vlib.ToolError("vacuous: no configuration with the Identity crypt filter")
+    fs = {(t["cfg"]["V"] >= 4, f["f"]) for t in terms for f in t["forms"]}
+    if not {(False, "em.false"), (False, "enc.direct"), (True, "enc.direct"), (True, "stmf.absent"), (True, "strf.absent"), (True, "canon")} <= fs:
+        raise vlib.ToolError("vacuous: forms of the encryption dictionary missing: %s" % sorted(fs))
+    if any(t["subjects"]["str.sigcontents"] for t in terms) or any(t["subjects"]["stream.cryptid"] != (t["cfg"]["V"] < 4) for t in terms):
+        raise vlib.ToolError("TERMS line: signature Contents / Crypt-without-parameters streams are not exempt as the standard says")
+    devk = set()
+    for t in terms:
+        ident = "Identity" in (t["cfg"]["stmf"], t["cfg"]["strf"])
+        for k, dv in t["devItems"].items():
+            if dv:
+                devk.add(k if k in ("str.sigcontents", "stream.cryptid") or not ident else "identity")
+    devf = {("identity" if f["f"] in ("canon", "stmf.absent", "strf.absent") else f["f"]) for t in terms for f in t["forms"] if f["dev"]}
+    if devk != MODEL_DEV_KINDS or devf != MODEL_DEV_FORMS:
+        raise vlib.ToolError("modelled deviations in applying the handler differ from MODEL_DEV_KINDS / MODEL_DEV_FORMS: %s %s" % (sorted(devk), sorted(devf)))
     groups = {(json.dumps(c["cfg"], sort_keys=True), c["absent"], json.dumps(c["user"]), json.dumps(c["owner"])) for c in cases}
     return len(terms), len(cases), len(groups)
 
@@ -293,14 +323,15 @@ def run(tier):
     orders = ORDERS_THOROUGH if thorough else ORDERS_QUICK
     jobs = []                                     # (round tag, direction, history, seed, n)
     for k in range(rounds):
-        jobs += [(k, d, "", vlib.seed() + 7919 * k, ngroups) for d in ("gen", "record")]
+        jobs += [(k, "gen", "", vlib.seed() + 7919 * k, ngroups, "%d/3" % part) for part in range(3)]      # the long job, in three parts
+        jobs += [(k, "record", "", vlib.seed() + 7919 * k, ngroups, "0/1")]
     for k, o in enumerate(orders):
-        jobs += [(100 + k, d, ",".join(o), vlib.seed() + 104729 * (k + 1), nsens + 40) for d in ("gen", "record")]
+        jobs += [(100 + k, d, ",".join(o), vlib.seed() + 104729 * (k + 1), nsens + 40, "0/1") for d in ("gen", "record")]
 
     def harness(job):
-        tag, d, h, sd, n = job
-        outp = os.path.join(w, "%s%d.ndjson" % (d[0], tag))
-        run_bin("c06", [d] + (["--hist", h] if h else []) + ["--terms", tf, "--seed", sd, "--n", n, "--out", outp])
+        tag, d, h, sd, n, part = job
+        outp = os.path.join(w, "%s%d-%s.ndjson" % (d[0], tag, part[0]))
+        run_bin("c06", [d] + (["--hist", h] if h else []) + ["--terms", tf, "--seed", sd, "--n", n, "--part", part, "--out", outp])
         return read_ndjson(outp)
     recs = []
     with ThreadPoolExecutor(max_workers=8) as ex:
@@ -369,6 +400,21 @@ def run(tier):
             if not any(r["ev"] == "obs" and r["obs"] == "O" and r["cfg"]["R"] == R and (sens(r, "user") or sens(r, "owner")) for r in rs) or \
                not any(r["ev"] == "open" and r["cfg"]["R"] == R and sens(r, "try") and (r.get("expUser") or r.get("expOwner")) for r in rs):
                 vac.append("history %s: no sensitive password judged for revision %d" % (o, R))
+    # application of the handler: every form / optional content / Identity configuration reached lopdf in both directions
+    gopen = [r for r in recs if r["ev"] == "open" and (r.get("expUser") or r.get("expOwner"))]
+    for f in ("enc.direct", "em.false", "stmf.absent", "strf.absent"):
+        if not any(r["form"] == f for r in gopen):
+            vac.append("dictionary form never tried with a right password: %s" % f)
+    for ft in ("sig", "crypt"):
+        for V in (1, 2, 4, 5):
+            if not any(r["feature"] == ft and r["cfg"]["V"] == V for r in gopen):
+                vac.append("optional content %s never opened with a right password for V %d" % (ft, V))
+            if not any(r["ev"] == "obs" and r["obs"] == "ct" and r["cfg"]["V"] == V and r["kind"] == ("str.sigcontents" if ft == "sig" else "stream.cryptid") for r in recs):
+                vac.append("optional content %s never encrypted by lopdf for V %d" % (ft, V))
+    for V in (4, 5):
+        if not any(r["cfg"]["V"] == V and "Identity" in (r["cfg"]["stmf"], r["cfg"]["strf"]) for r in gopen) or \
+           not any(r["ev"] == "obs" and r["obs"] == "ct" and r["cfg"]["V"] == V and "Identity" in (r["cfg"]["stmf"], r["cfg"]["strf"]) for r in recs):
+            vac.append("Identity filter never exercised for V %d" % V)
     # every legal form of the Length entry was given to lopdf with a right password (and opened, unless a listed deviation)
     lenforms = {}
     for r in recs:
@@ -402,7 +448,7 @@ def run(tier):
         a = pick(lambda r: r["ev"] == "obs" and r["obs"] == "O" and r["cfg"]["R"] == 3 and len(r["owner"]) > 0, "O of revision 3")
         a["bad"] = 1
         neg.append((a, lambda v: v == "O.R3"))
-        b = pick(lambda r: r["ev"] == "obs" and r["obs"] == "ct" and r["kind"] == "stream" and r["cfg"]["R"] == 6, "stream ciphertext R6")
+        b = pick(lambda r: r["ev"] == "obs" and r["obs"] == "ct" and r["kind"] == "stream" and r["cfg"]["R"] == 6 and r["cfg"]["stmf"] == "AESV3", "stream ciphertext R6")
         b["bad"] = 1
         neg.append((b, lambda v: v == "ct.R6.AESV3.stream"))
         c = pick(lambda r: r["ev"] == "open" and not r.get("expUser", True) and not r.get("expOwner", True) and r["res"] == "err",
@@ -428,6 +474,10 @@ def run(tier):
                  and r["authU"] == "yes" and any("euro" in s.get("txt", []) for s in r["try"]), "Euro password after another encoding")
         k["authU"], k["res"], k["fk"] = "no", "err", "na"
         neg.append((k, lambda v: v == "password-encoding.history.R234"))
+        m = pick(lambda r: r["ev"] == "open" and r["cfg"]["V"] == 2 and r["form"] == "canon" and r["feature"] == "none" and r["dlen"] == r["cfg"]["bits"]
+                 and r.get("expUser") and r["res"] == "ok", "canonical V 2 document opened with the user password")
+        m["form"], m["bad"], m["canonOpens"] = "em.false", ["stream.meta"], "yes"
+        neg.append((m, lambda v: v == "encryptmetadata.below-V4"))
         f = pick(lambda r: r["ev"] == "dict", "Encrypt dictionary")
         f["d"]["P"] += 1
         neg.append((f, lambda v: v.startswith("dict.P")))
